@@ -13,7 +13,7 @@ from typing import TYPE_CHECKING, Literal
 
 import libcst as cst
 
-from pynguin.assertion.assertion import ExceptionAssertion
+from pynguin.assertion.assertion import ExceptionAssertion, ReferenceAssertion
 from pynguin.utils import randomness
 
 if TYPE_CHECKING:
@@ -597,6 +597,14 @@ class TestCase:  # noqa: PLR0904
             stmt = self._statements[i]
             bv = stmt.bound_variable
 
+            # The assertions of a statement are checked right after it and read variables
+            # as well (e.g., ``var_0`` or ``var_0.attribute``).
+            alive_vars.update(
+                assertion.source.split(".", 1)[0]
+                for assertion in stmt.assertions
+                if isinstance(assertion, ReferenceAssertion)
+            )
+
             if bv is not None:
                 if bv in alive_vars:
                     # Variable is used later. It is NOT alive before this assignment.
@@ -610,6 +618,9 @@ class TestCase:  # noqa: PLR0904
                             node=new_node,
                             bound_variable=None,
                             bound_type=None,
+                            assertions=stmt.assertions,
+                            accessible=stmt.accessible,
+                            ml_info=stmt.ml_info,
                         )
                     # Even if unused, the RHS might use other variables
                     alive_vars.update(_get_used_variables(stmt))
